@@ -472,7 +472,11 @@ def s9(cx):
             root, steps = access_path(e)
             return root[0] == 'arg' and root[1] == 1 and bool(steps) and steps[0] == mem
 
-        emptied = [x for x in g.nodes if x['kind'] == 'call' and x['name'] in TAKE and x['args'] and is_mem(x['args'][0])]
+        def _none(e):
+            e = strip(e)
+            return e[0] == 'agg' and e[2].endswith('Option::None')
+        emptied = [x for x in g.nodes if x['kind'] == 'call' and x['args'] and is_mem(x['args'][0]) and
+                   (x['name'] in ('std::option::Option::take', 'std::mem::take') or (x['name'] == 'std::mem::replace' and len(x['args']) > 1 and _none(x['args'][1])))]
 
         def ev(x):
             if x['kind'] == 'assign' and is_mem(x['lhs']) and access_path(x['lhs'])[1] == [mem]:
@@ -480,6 +484,15 @@ def s9(cx):
                 if r[0] == 'agg' and r[2].endswith('Option::Some') and r[3] and mentions_item(r[3][0]):
                     return ('store',)
                 return ('badstore',)
+            if x['kind'] == 'call' and x['args'] and is_mem(x['args'][0]) and access_path(x['args'][0])[1] == [mem] and len(x['args']) > 1:
+                # replace()/insert() write the memory just like an assignment does
+                if x['name'] in ('std::option::Option::replace', 'std::option::Option::insert'):
+                    return ('store',) if mentions_item(x['args'][1]) else ('badstore',)
+                if x['name'] == 'std::mem::replace':
+                    r = strip(x['args'][1])
+                    if r[0] == 'agg' and r[2].endswith('Option::Some') and r[3] and mentions_item(r[3][0]):
+                        return ('store',)
+                    return ('badstore',)
             if down_method(x) == 'next':
                 return ('emit',)
             return None
